@@ -384,6 +384,58 @@ Fixpoint zlist_eqb (a b : list Z) : bool :=
   | _, _ => false
   end.
 Definition flat_eqb (a b : flat) : bool := (fst a =? fst b) && zlist_eqb (snd a) (snd b).
+(* ------------------------------------------------------------------------------------------ *)
+(* gpos/builders.rs ClassPairPosBuilder: class rules are appended to the LAST class subtable, a new subtable is
+   opened when either class conflicts with the last subtable's class definitions (implicit subtable break).
+   Sets are glyph lists compared as sets. *)
+Definition set_eqb (a b : list Z) : bool := zlist_eqb (sort_dedup a) (sort_dedup b).
+Definition zmem (g : Z) (l : list Z) : bool := existsb (Z.eqb g) l.
+(* ClassDefBuilder::can_add: classes.contains(cls) || cls.iter().all(|gid| !all_glyphs.contains(gid)) *)
+Definition cdb_can_add (classes : list (list Z)) (cls : list Z) : bool :=
+  existsb (set_eqb cls) classes || forallb (fun g => negb (zmem g (concat classes))) cls.
+(* ClassDefBuilder::checked_add *)
+Definition cdb_checked_add (classes : list (list Z)) (cls : list Z) : list (list Z) :=
+  if cdb_can_add classes cls then (if existsb (set_eqb cls) classes then classes else classes ++ [cls]) else classes.
+
+Section ClassPairs.
+Context {V : Type}.
+(* ClassPairPosSubtable: classdef_1, classdef_2, items (BTreeMap keyed by the two sets: insert overwrites) *)
+Record cgroup := { cg_c1 : list (list Z); cg_c2 : list (list Z); cg_items : list ((list Z * list Z) * V) }.
+Definition cg_empty : cgroup := {| cg_c1 := []; cg_c2 := []; cg_items := [] |}.
+(* ClassPairPosSubtable::can_add *)
+Definition cg_can_add (g : cgroup) (c1 c2 : list Z) : bool := cdb_can_add (cg_c1 g) c1 && cdb_can_add (cg_c2 g) c2.
+Fixpoint items_insert (k : list Z * list Z) (v : V) (m : list ((list Z * list Z) * V)) : list ((list Z * list Z) * V) :=
+  match m with
+  | [] => [(k, v)]
+  | (k', v') :: r => if set_eqb (fst k) (fst k') && set_eqb (snd k) (snd k') then (k', v) :: r else (k', v') :: items_insert k v r
+  end.
+(* ClassPairPosSubtable::add *)
+Definition cg_add (g : cgroup) (c1 c2 : list Z) (v : V) : cgroup :=
+  {| cg_c1 := cdb_checked_add (cg_c1 g) c1; cg_c2 := cdb_checked_add (cg_c2 g) c2; cg_items := items_insert (c1, c2) v (cg_items g) |}.
+(* ClassPairPosBuilder::insert: `if self.0.last().map(|last| last.can_add(..)) != Some(true) { push(default) }; last_mut().add(..)` *)
+Fixpoint cpp_insert (gs : list cgroup) (c1 c2 : list Z) (v : V) : list cgroup :=
+  match gs with
+  | [] => [cg_add cg_empty c1 c2 v]
+  | g :: rest =>
+      match rest with
+      | [] => if cg_can_add g c1 c2 then [cg_add g c1 c2 v] else [g; cg_add cg_empty c1 c2 v]
+      | _ :: _ => g :: cpp_insert rest c1 c2 v
+      end
+  end.
+Definition cpp_build (rules : list (list Z * list Z * V)) : list cgroup :=
+  fold_left (fun gs r => cpp_insert gs (fst (fst r)) (snd (fst r)) (snd r)) rules [].
+
+(* meaning of one class subtable at the rule level: it decides every pair whose first glyph it covers;
+   Some None = covered, no rule for the class pair (the empty record) *)
+Definition cg_lookup (g : cgroup) (x y : Z) : option (option V) :=
+  if zmem x (concat (cg_c1 g)) then
+    Some (match find (fun it : (list Z * list Z) * V => zmem x (fst (fst it)) && zmem y (snd (fst it))) (cg_items g) with
+          | Some it => Some (snd it) | None => None end)
+  else None.
+Definition cpp_lookup (gs : list cgroup) (x y : Z) : option (option V) := first_some (fun g => cg_lookup g x y) gs.
+End ClassPairs.
+Arguments cgroup : clear implicits.
+
 Fixpoint list_eqb {T U} (eqb : T -> U -> bool) (a : list T) (b : list U) : bool :=
   match a, b with
   | [], [] => true
@@ -410,7 +462,10 @@ Inductive case :=
             (pieces : list (flat * Z * list (Z * Z) * list (list Z)))
   (* lookup header before / after compilation: (type, flags, mark filtering set or -1, subtable count),
      promoted?, and the extension_lookup_type of every compiled subtable (empty when not promoted) *)
-| CPromote (before after : Z * Z * Z * Z) (promoted : bool) (ext_types : list Z).
+| CPromote (before after : Z * Z * Z * Z) (promoted : bool) (ext_types : list Z)
+  (* a sequence of PairPosBuilder::insert_classes calls (class1, class2) and, per class subtable the real builder
+     produced (in order), its coverage glyphs and its class1 / class2 counts *)
+| CClassSeq (rules : list (list Z * list Z)) (subs : list (list Z * Z * Z)).
 
 Definition probes_ok (f : Z -> Z) (probes : list (Z * Z)) : bool :=
   forallb (fun p => f (fst p) =? snd p) probes.
@@ -467,6 +522,14 @@ Definition check_case (c : case) : bool :=
                             ps pieces
       | None => false
       end
+  | CClassSeq rules subs =>
+      let gs := cpp_build (map (fun r : list Z * list Z => (r, 0)) rules) in
+      list_eqb (fun (g : cgroup Z) (o : list Z * Z * Z) =>
+                  zlist_eqb (sort_dedup (concat (cg_c1 g))) (fst (fst o))
+                  && (zlen (cg_c1 g) =? snd (fst o))
+                  (* classdef2 keeps class 0 for "everything else" *)
+                  && (zlen (cg_c2 g) + 1 =? snd o))
+               gs subs
   | CPromote before after promoted ext_types =>
       let '(ty, fl, mfs, n) := before in
       let l := {| lk_type := ty; lk_flags := fl; lk_mfs := (if mfs <? 0 then None else Some mfs);
